@@ -46,6 +46,17 @@ def is_write_open(msg):
     return bool(f & (O_WRONLY | O_RDWR | O_CREAT))
 
 
+def is_trunc_open(msg):
+    """An open that empties the file before the first write ('w' modes, O_TRUNC): a process dying right after it leaves an empty
+    or partial file behind (torn write).  An append can only lose its own tail, never what was already in the file."""
+    if msg.get("ev") != "open":
+        return False
+    m = msg.get("m")
+    if isinstance(m, str):
+        return "w" in m
+    return bool((msg.get("f") or 0) & os.O_TRUNC) and not bool((msg.get("f") or 0) & O_EXCL)
+
+
 def is_lock_acquire(msg):
     return msg.get("ev") == "open" and msg.get("p", "").endswith(".lock") and bool((msg.get("f") or 0) & O_EXCL)
 
@@ -1024,7 +1035,7 @@ class Sim:
                 self.crash_done = True
                 kind = tgt[2]
                 iswrite = is_write_open(msg) or msg.get("ev") in ("os.rename", "os.remove", "os.mkdir")
-                if kind in ("raise", "torn") and not (is_write_open(msg) if kind == "torn" else iswrite):
+                if kind in ("raise", "torn") and not (is_trunc_open(msg) if kind == "torn" else iswrite):
                     kind = "die"
                 if kind == "lockfail" and not is_lock_acquire(msg):
                     kind = "die"
@@ -1057,6 +1068,8 @@ class Sim:
                 iswrite = is_write_open(msg) or msg.get("ev") in ("os.rename",)
                 if kind != "die" and not iswrite:
                     kind = "die"
+                if kind == "torn" and not is_trunc_open(msg):
+                    kind = "die"
                 cls = self.point_class(msg)
                 self.faults_injected.append((kind, a.host, a.cmd[:40], cls, self.sub_steps[a.pid]))
                 self.status_faults.append(kind)
@@ -1081,7 +1094,7 @@ class Sim:
                 self.crash_done = True
                 kind = cc[2]
                 iswrite = is_write_open(msg) or msg.get("ev") in ("os.rename", "os.remove", "os.mkdir")
-                if kind in ("raise", "torn") and not (is_write_open(msg) if kind == "torn" else iswrite):
+                if kind in ("raise", "torn") and not (is_trunc_open(msg) if kind == "torn" else iswrite):
                     kind = "die"
                 cls = self.point_class(msg)
                 self.faults_injected.append((kind, a.host, a.cmd[:40], cls, cc[1]))
@@ -1430,7 +1443,7 @@ class Sim:
         # after which the lock no longer excludes anybody.  That is a property of the lock library, not of JADE, and every
         # JADE property presupposes an exclusive lock - so read+rename is scheduled as one step (no delay, no other process).
         for a in sorted(self.actors.values(), key=lambda x: x.idx):
-            if a.state == "waiting" and a.msg.get("ev") == "os.rename" and a.msg.get("p", "").endswith(".lock"):
+            if a.state == "waiting" and a.msg.get("ev") == "os.rename" and a.msg.get("p", "").endswith(".lock") and not os.environ.get("VSIM_EXPERIMENT_RACY_BREAK"):
                 return (1.0, "actor", a)
         while True:
             cands, sleepers = self.candidates()
